@@ -26,8 +26,10 @@ STATUS_KW = [
 ]
 # volumes: index -> value given to the facade, and the canonical index of the values that are EQUAL
 # for a listener (-0.0 == 0.0, 10 == 10.0)
-VOL_VALUES = [0.0, 10.0, 25.5, -0.0, 10]
-VOL_CANON = [0, 1, 2, 0, 1]
+# (one unit = one volume step of 5 percent, as volume_up / volume_down of the protocols move it)
+VOL_VALUES = [5.0 * k for k in range(21)] + [-0.0, 10]
+VOL_CANON = list(range(21)) + [0, 2]
+VOL_PICK = [0, 1, 2, 3, 19, 20, 21, 22]          # indices used by the generators
 # output-device lists: same identifier, different name / no name / extra device
 DEV_VALUES = [[], [("a", "1")], [("b", "1")], [(None, "1")], [("a", "1"), ("b", "2")]]
 
@@ -125,6 +127,34 @@ async def drive(loop, cfg, ops, manual):
     class Kbd(interface.Keyboard):
         pass
 
+    class Aud(interface.Audio):
+        """A protocol's Audio as RAOP / MRP / Companion implement it: the new level is applied and
+        then announced with state_dispatcher.dispatch(UpdatedState.Volume, level); volume_up /
+        volume_down are set_volume(current +- 5.0) clamped to 0..100."""
+
+        def __init__(self, disp):
+            super().__init__()
+            self.disp = disp
+            self.level = 0.0
+
+        @property
+        def volume(self):
+            return self.level
+
+        async def set_volume(self, level):
+            self.level = level
+            self.disp.dispatch(UpdatedState.Volume, self.level)
+
+        async def volume_up(self):
+            await self.set_volume(min(self.level + 5.0, 100.0))
+
+        async def volume_down(self):
+            await self.set_volume(max(self.level - 5.0, 0.0))
+
+        def device_changed(self, level):          # the device reports a new level
+            self.level = level
+            self.disp.dispatch(UpdatedState.Volume, self.level)
+
     class Sess:
         async def close(self):
             return None
@@ -153,9 +183,9 @@ async def drive(loop, cfg, ops, manual):
     def status_index(p):
         return STATUS_FIELDS.index(fields(p))
 
-    class Aud(interface.AudioListener):
+    class AudL(interface.AudioListener):
         def volume_update(self, old_level, new_level):
-            got.append(["DVol", VOL_CANON[VOLS.index(old_level)], VOL_CANON[VOLS.index(new_level)]])
+            got.append(["DVol", VOL_CANON[VOLS.index(old_level)], VOL_CANON[VOLS.index(new_level)]])   # index() compares with ==
 
         def outputdevices_update(self, old_devices, new_devices):
             k = lambda ds: DEVS.index([(d.name, d.identifier) for d in ds])
@@ -168,7 +198,7 @@ async def drive(loop, cfg, ops, manual):
     core = MessageDispatcher()
     config = conf.AppleTV("127.0.0.1", "verif")
     atv = facade.FacadeAppleTV(config, Sess(), core, Settings())
-    upds, disps = {}, {}
+    upds, disps, audios = {}, {}, {}
     for rank in range(5):
         proto = getattr(Protocol, PRIORITY[rank])
         disps[rank] = ProtocolStateDispatcher(proto, core)
@@ -184,13 +214,16 @@ async def drive(loop, cfg, ops, manual):
             ifaces[interface.PushUpdater] = upds[rank]   # ... but only these are registered
         if has_kbd:
             ifaces[interface.Keyboard] = Kbd()
+        if len(entry) > 4 and entry[4]:
+            audios[rank] = Aud(disps[rank])
+            ifaces[interface.Audio] = audios[rank]
 
         async def connect():
             return True
         atv.add_protocol(SetupData(proto, connect, lambda: set(), lambda: {}, ifaces, set()))
     await atv.connect()
     pu, audio, kbd = atv.push_updater, atv.audio, atv.keyboard
-    listeners = [Push(), Aud(), Key()]
+    listeners = [Push(), AudL(), Key()]
     pu.listener, audio.listener, kbd.listener = listeners
     relayers = {"push": pu, "kbd": kbd}
     IFACE = {"push": interface.PushUpdater, "kbd": interface.Keyboard}
@@ -219,7 +252,16 @@ async def drive(loop, cfg, ops, manual):
                 for w in op[1]:
                     relayers[w].release()
             elif k == "Vol":
-                disps[op[1]].dispatch(UpdatedState.Volume, VOLS[op[2]])
+                if op[1] in audios:
+                    audios[op[1]].device_changed(VOLS[op[2]])
+                else:
+                    disps[op[1]].dispatch(UpdatedState.Volume, VOLS[op[2]])
+            elif k == "SetVol":
+                await audio.set_volume(VOLS[op[1]])       # the user, through the real FacadeAudio
+            elif k == "VolUp":
+                await audio.volume_up()
+            elif k == "VolDown":
+                await audio.volume_down()
             elif k == "Dev":
                 disps[op[1]].dispatch(UpdatedState.OutputDevices,
                                       [interface.OutputDevice(n, i) for n, i in DEVS[op[2]]])
@@ -240,6 +282,8 @@ async def drive(loop, cfg, ops, manual):
             res = "blocked"
         except exceptions.InvalidStateError:
             res = "invalid"
+        except exceptions.NotSupportedError:
+            res = "notsup"
         except asyncio.CancelledError:
             raise
         except ValueError:
@@ -284,6 +328,8 @@ def oracle(cfg, ops, outs):
     started = False
     closed = False
     vq, dq, fq = [], [], []          # values accepted for delivery, in dispatch (= FIFO) order
+    aregs = [e[0] for e in cfg["protos"] if len(e) > 4 and e[4]]
+    level = dict((r, 0) for r in aregs)          # level held by each protocol's Audio (steps of 5 percent)
     for j, op in enumerate(ops):
         res, ds = outs[j]
         k = op[0]
@@ -308,6 +354,14 @@ def oracle(cfg, ops, outs):
                 take[w] = None
         elif k == "Vol":
             vq.append(VOL_CANON[op[2]])
+            if op[1] in level:
+                level[op[1]] = VOL_CANON[op[2]]
+        elif k in ("SetVol", "VolUp", "VolDown") and not closed and aregs:
+            # the user's own change: applied and announced by the protocol serving audio -> the
+            # listener must hear about it like about any other change
+            am = min(aregs)
+            level[am] = VOL_CANON[op[1]] if k == "SetVol" else (min(level[am] + 1, 20) if k == "VolUp" else max(level[am] - 1, 0))
+            vq.append(level[am])
         elif k == "Dev":
             dq.append(op[2])
         elif k == "Focus":
@@ -379,9 +433,10 @@ def oracle(cfg, ops, outs):
 # ------------------------------------------------------------------ Coq terms
 
 def c_cfg(cfg):
-    return "{| regs := %s; kregs := %s; sraise := %s |}" % (
+    return "{| regs := %s; kregs := %s; sraise := %s; aregs := %s |}" % (
         common.clist([e[0] for e in cfg["protos"] if e[1]]), common.clist([e[0] for e in cfg["protos"] if e[2]]),
-        common.clist([e[0] for e in cfg["protos"] if len(e) > 3 and e[3]]))
+        common.clist([e[0] for e in cfg["protos"] if len(e) > 3 and e[3]]),
+        common.clist([e[0] for e in cfg["protos"] if len(e) > 4 and e[4]]))
 
 
 def c_op(op):
@@ -391,6 +446,8 @@ def c_op(op):
         return "%s %d %d" % ({"Post": "Post", "Vol": "DispVol", "Dev": "DispDev", "Focus": "DispFocus"}[k], op[1], v)
     if k == "Err":
         return "Err %d" % op[1]
+    if k == "SetVol":
+        return "SetVol %d" % VOL_CANON[op[1]]
     if k == "Take":
         return "Take %d %s" % (op[1], common.clist(["IPush" if w == "push" else "IKbd" for w in op[2]]))
     if k == "Rel":
@@ -403,7 +460,7 @@ def c_out(d):
 
 
 def c_res(r):
-    return {"ok": "ROk", "blocked": "RBlocked", "invalid": "RInvalid"}.get(r, "RRaise")
+    return {"ok": "ROk", "blocked": "RBlocked", "invalid": "RInvalid", "notsup": "RNotSup"}.get(r, "RRaise")
 
 
 def c_case(cfg, ops, outs):
@@ -416,7 +473,7 @@ def c_case(cfg, ops, outs):
 def rand_cfg(rng):
     n = rng.choice([1, 2, 2, 3, 3])
     ranks = rng.sample(range(5), n)
-    protos = [[r, rng.random() < 0.8, rng.random() < 0.6, rng.random() < 0.15] for r in ranks]
+    protos = [[r, rng.random() < 0.8, rng.random() < 0.6, rng.random() < 0.15, rng.random() < 0.6] for r in ranks]
     if not any(p[1] for p in protos):
         protos[0][1] = True
     return {"protos": protos}
@@ -442,8 +499,9 @@ def rand_ops(rng, cfg, length, manual):
             ops.append(["Take", rng.choice(ranks + [rng.randrange(5)]), rng.choice([["push"], ["push"], ["kbd"], ["push", "kbd"], ["kbd", "push"], ["push", "push"], []])])
         elif x < 0.68:
             ops.append(["Rel", rng.choice([["push"], ["kbd"], ["push", "kbd"], []])])
-        elif x < 0.74:
-            ops.append(["Vol", rng.choice(ranks), rng.randrange(len(VOL_VALUES))])
+        elif x < 0.76:
+            ops.append(rng.choice([["Vol", rng.choice(ranks), rng.choice(VOL_PICK)], ["Vol", rng.choice(ranks), rng.choice(VOL_PICK)],
+                                   ["SetVol", rng.choice(VOL_PICK)], ["VolUp"], ["VolDown"]]))
         elif x < 0.78:
             ops.append(["Dev", rng.choice(ranks), rng.randrange(len(DEV_VALUES))])
         elif x < 0.84:
@@ -476,13 +534,14 @@ def run(ctx):
     ctx.rule = ("(a) corpus; (b) for %d fixed configurations (1..3 protocols) EVERY op sequence of length <= %d over "
                 "{post(highest-priority proto, s0), post(same, s1), post(lowest-priority proto, s0), start, stop (with a configuration whose first "
                 "updater raises from stop()), takeover(lowest, push), takeover(protocol without push updater, push), release, run-all}, as such on the real loop, and preceded by start on the real loop and on the stepped loop; "
-                "(b') every sequence of length <= %d ending in run-all over {volume(hi,0), volume(hi,1), volume(lo,int 10), volume(hi,-0.0), devices x3, "
-                "focus(hi,1), focus(lo,2), keyboard takeover(lo), release, run-all} - volumes include -0.0 and int 10 (equal to 0.0 / 10.0), device lists "
+                "(b') every sequence of length <= %d ending in run-all over {volume(hi,0), volume(hi,10.0), volume(lo,int 10), devices x2, "
+                "focus(hi,1), focus(lo,2), keyboard takeover(lo), release, user set_volume(10.0), user set_volume(20.0), user volume_up, user volume_down "
+                "(through the real FacadeAudio to a protocol Audio that applies and announces the level as RAOP/MRP/Companion do), run-all} - volumes include -0.0 and int 10 (equal to 0.0 / 10.0), device lists "
                 "agree on the identifier and differ in the name (renamed, unnamed); (b'') start followed by every sequence of length <= %d ending in "
                 "run-all over {error(hi), error(lo), post(hi), start, stop, close, takeover(lo), release, run-all} on both loops; "
                 "(b3) every ordered pair (a, b) of the 5 play statuses / 5 volumes / 5 device lists / 3 focus states reported as a, b, a and drained; "
                 "(c) %d random sequences of length 4..16 over the full alphabet (post/error by any protocol (real MrpPushUpdater.state_updated) with 5 statuses differing in one field each, start, stop, "
-                "close, takeover/release of push and/or keyboard by any protocol, volume/output-device/focus dispatch (5/5/3 values), "
+                "close, takeover/release of push and/or keyboard by any protocol, volume/output-device/focus dispatch (8/5/3 values), user set_volume/volume_up/volume_down, "
                 "run-one (stepped loop only), run-all), random configuration, half on each loop.  distinct = (configuration, loop mode, sequence); "
                 "non-trivial = a user listener received at least one call" % (len(exh_cfgs), maxlen, maxlen, maxlen, nrand))
     cases = []
@@ -517,11 +576,13 @@ def run(ctx):
                 for manual in (False, True):
                     one(cfg, [["Start"]] + list(seq), manual, "exhaustive-len%d" % length)
     # (b') the comparers: every sequence over volume / focus dispatches, keyboard takeover, run
-    cfg = EXH_CFGS[2]
+    # user-initiated volume changes through the facade (set_volume / volume_up / volume_down relayed to the
+    # protocol's Audio, which announces the level) interleaved with device-side changes
+    cfg = {"protos": [[3, True, True, False, True], [1, True, True, False, True], [2, False, True, False, False]]}
     kr = sorted(p[0] for p in cfg["protos"] if p[2])
     khi, klo = kr[0], kr[-1]
-    alpha = [["Vol", khi, 0], ["Vol", khi, 1], ["Vol", klo, 4], ["Vol", khi, 3], ["Dev", khi, 1], ["Dev", khi, 2], ["Dev", klo, 3],
-             ["Focus", khi, 1], ["Focus", klo, 2], ["Take", klo, ["kbd"]], ["Rel", ["kbd"]], ["RunAll"]]
+    alpha = [["Vol", khi, 0], ["Vol", khi, 2], ["Vol", klo, 22], ["Dev", khi, 1], ["Dev", khi, 2], ["Focus", khi, 1], ["Focus", klo, 2],
+             ["Take", klo, ["kbd"]], ["Rel", ["kbd"]], ["SetVol", 2], ["SetVol", 4], ["VolUp"], ["VolDown"], ["RunAll"]]
     for length in range(1, maxlen + 1):
         for seq in itertools.product(alpha, repeat=length):
             if seq[-1][0] != "RunAll":
@@ -546,9 +607,9 @@ def run(ctx):
     for a in range(NSTATUS):
         for b in range(NSTATUS):
             one(cfg, [["Start"], ["Post", r0, a], ["Post", r0, b], ["Post", r0, a], ["RunAll"]], bool((a + b) % 2), "value-pairs")
-    for kind, n in (("Vol", len(VOL_VALUES)), ("Dev", len(DEV_VALUES)), ("Focus", 3)):
-        for a in range(n):
-            for b in range(n):
+    for kind, dom in (("Vol", VOL_PICK), ("Dev", range(len(DEV_VALUES))), ("Focus", range(3))):
+        for a in dom:
+            for b in dom:
                 one(cfg, [[kind, r0, a], [kind, r0, b], [kind, r0, a], ["RunAll"]], bool((a + b) % 2), "value-pairs")
     ctx.exhaustive = True
     for i in range(nrand):
